@@ -104,9 +104,11 @@ fn walk_case(g: &[Atom]) -> String {
 fn hist_case(h: &[Ev]) -> String {
     let mut w = Writer::new(); let rw = guarded(|| { replay(h, &mut w); w.write() });
     let mut b = Builder::new(); let rb = guarded(|| { replay(h, &mut b); b.build() });
-    // re-read what was written
-    let reread = match &rw { Ok(t) => { let mut rec = Recorder::new(); let r = guarded(|| read(t, &mut rec, None)); format!("(Some ({}, {}))", verdict(&r), coq_evs(&rec.events)) } Err(_) => "None".into() };
-    format!("HC {} {} {} {}", coq_evs(h), opt_text(rw.ok()), coq_build(rb), reread)
+    // re-read what was written, and write that again
+    let (reread, rewrite) = match &rw { Ok(t) => { let mut rec = Recorder::new(); let r = guarded(|| read(t, &mut rec, None));
+            let mut w2 = Writer::new(); let evs = &rec.events; let rw2 = guarded(|| { replay(evs, &mut w2); w2.write() });
+            (format!("(Some ({}, {}))", verdict(&r), coq_evs(&rec.events)), opt_text(rw2.ok())) } Err(_) => ("None".into(), "None".into()) };
+    format!("HC {} {} {} {} {}", coq_evs(h), opt_text(rw.ok()), coq_build(rb), reread, rewrite)
 }
 
 // ------------------------------------------------------------------ pool suite
